@@ -19,6 +19,7 @@ import (
 	"github.com/mimecast/dtail/internal/io/pool"
 	"github.com/mimecast/dtail/internal/lcontext"
 	"github.com/mimecast/dtail/internal/regex"
+	"github.com/mimecast/dtail/internal/vhook"
 
 	"github.com/DataDog/zstd"
 )
@@ -127,6 +128,7 @@ func (f *readFile) makeFileReader() (reader *bufio.Reader, fd *os.File, err erro
 		}
 	}
 
+	vhook.Point("read.positioned")
 	reader, err = f.makeCompressedFileReader(fd)
 	return
 }
